@@ -914,6 +914,8 @@ def publicise(text: str, kind: str, report: DropReport, item: str, in_trait_impl
         n += 1
     if kind == "struct":
         k = h
+        while k < len(ct) and ct[k].text != "struct":
+            k += 1
         while k < len(ct) and ct[k].text not in ("{", "(", ";"):
             if ct[k].text == "<":
                 k = R.skip_generics(ct, k)
